@@ -22,4 +22,21 @@ def obligations(tier):
         {'name': 'C12.b/crc32_msg1', 'engine': 'py', 'module': K, 'func': 'crc32_msg', 'params': {'n': 1}, 'cond_timeout': 900,
          'bounds': 'all messages of 1 byte', 'functions': ['isohybrid.crc32']},
     ]
+    H = 'vf.props.C12_h'
+    geos = [(64, 32, 1, 2000, 8), (64, 32, 523264, 526336, 8), (255, 63, 1, 31000, 100), (1, 1, 1, 3, 2), (256, 63, 1, 32000, 8)]
+    if tier != 'quick':
+        geos += [(64, 32, 1, 1 << 20, 64), (1, 63, 1, 40000, 70), (255, 63, 1, 1 << 22, 8), (2, 8, 1, 200, 20)]
+    for (hd, sc, n0, n1, po) in geos:
+        obs.append({'name': 'C12.a/mbr/h%d_s%d_n%d-%d' % (hd, sc, n0, n1), 'engine': 'chx', 'module': H, 'func': 'mbr',
+                    'params': {'heads': hd, 'sectors': sc, 'nmin': n0, 'nmax': n1, 'pomax': po}, 'cond_timeout': 1200, 'path_timeout': 200,
+                    'bounds': 'geometry %d heads x %d sectors; image size n*2048 with n in [%d,%d]; part_offset <= %d; part_entry 1..4; any type / mbr id / boot extent' % (hd, sc, n0, n1, po),
+                    'functions': ['IsoHybrid.new', 'IsoHybrid._calc_cc', 'IsoHybrid.record', 'IsoHybrid.update_rba'],
+                    'samples': [(n0, 0, 1, 0x17, 5, 20)], 'stubs': ['M_struct', 'record_padding: only its length (_calc_cc) is used']})
+    from vf import skel
+    for c in ([skel.cfg_of(), skel.cfg_of(3, 3, '1.09', True, False)] if tier == 'quick' else skel.quick_cfgs()):
+        obs.append({'name': 'C12.c/hybrid_layout/%s' % skel.cfg_name(c), 'engine': 'chx', 'module': H, 'func': 'hybrid_layout', 'params': {'cfg': c},
+                    'cond_timeout': 900, 'path_timeout': 200,
+                    'bounds': 'BIOS + two EFI sections (EFI, Mac) with three symbolic boot file lengths in [1,100000]; add_isohybrid(mac=True); config %s' % skel.cfg_name(c),
+                    'functions': ['PyCdlib.add_eltorito', 'PyCdlib.add_isohybrid', 'PyCdlib._reshuffle_extents', 'IsoHybrid.update_rba', 'IsoHybrid.update_efi', 'IsoHybrid.update_mac'],
+                    'samples': [(1, 1, 2049)]})
     return obs
